@@ -627,7 +627,10 @@ def run(tier):
                 "exception_variants": {"read/rawread": ["OSError", "InjectedFault(RuntimeError)"],
                                        "open": ["OSError", "URLError (URL) / InjectedFault (package)"],
                                        "conv/sect": ["ValueError", "InjectedFault(RuntimeError)"]},
-                "faults_per_run": 1})
+                "faults_per_run": 1,
+                "quick_tier_reduction": "scenarios with 4 resources AND an extra edge get only the first "
+                                        "exception variant per point (thorough: both variants everywhere)"
+                if tier == "quick" else None})
     run.assumptions = [
         "files are real files under /dev/shm opened by the real urlopen / package loader; remote URL schemes "
         "are not exercised (the stream handling in openResource is scheme independent)",
